@@ -134,7 +134,7 @@ def run(rig, sc, timeout=60):
         return trig
     sigs = [(after(dt), SIGNO[nm]) for dt, nm in sc["signals"]]
     res = rig.run(g.puppet_scenario(sc), config(sc, profile), args=g.cli_args(sc, profile), signals=sigs,
-                  timeout=timeout, tap_fail_at=sc.get("tap_fail_at"))
+                  timeout=timeout, tap_fail_at=sc.get("tap_fail_at"), env_extra=g.env_for(sc))
     jd = os.path.join(e2e.PUPPET, "target", "nextest", profile)
     try:
         import shutil
